@@ -262,7 +262,7 @@ func genScenario(e *Env, i int) cliScenario {
 			if usedS > 6 {
 				continue
 			}
-			cp.Prior = []string{"absent", "identical", "stale", "garbage", "dirsquat"}[r.Intn(5)]
+			cp.Prior = []string{"absent", "identical", "stale", "garbage", "dirsquat", "longer", "shorter"}[r.Intn(7)]
 		case 'F':
 			cp = cliPkg{P: cliF((i + usedF) % 4), Class: 'F'}
 			usedF++
@@ -359,6 +359,20 @@ func runCLI(e *Env, rep *Report, rc *refCache, s cliScenario, cmd string, mu *sy
 		case "identical":
 			if p.Class == 'S' {
 				os.WriteFile(out, refs[p.P.ID], 0o644)
+			}
+		case "longer":
+			// what gen would write, followed by more (an injector that has since been removed)
+			if p.Class == 'S' {
+				os.WriteFile(out, append(append([]byte(nil), refs[p.P.ID]...), []byte("\n// LeftOver was generated for an injector that is gone.\nfunc LeftOver() int {\n\treturn 1\n}\n")...), 0o644)
+			}
+		case "shorter":
+			// what gen would write, cut off after the last complete declaration but one
+			if p.Class == 'S' {
+				b := refs[p.P.ID]
+				if i := strings.LastIndex(string(b), "\nfunc "); i > 0 {
+					b = b[:i+1]
+				}
+				os.WriteFile(out, b, 0o644)
 			}
 		case "stale":
 			os.WriteFile(out, []byte(stalePrior), 0o644)
